@@ -162,6 +162,10 @@ func (e *Engine) secretFmtObligs() []*Oblig {
 						bad = p
 						break
 					}
+					if p := e.secretFieldLoad(unboxedValue(op)); p != "" {
+						bad = p
+						break
+					}
 				}
 				o := &Oblig{Func: shortFuncName(k), Kind: "secretfmt", Label: fmt.Sprintf("%s#%d", label.name, label.ord), Prop: "C15",
 					Src: "no operand of " + shortFuncName(key) + " is a value whose printed form contains a private key or share", Where: where, Goal: "true",
@@ -233,4 +237,54 @@ func (e *Engine) secretEncoding(fn *ssa.Function, fnKey string, in ssa.Instructi
 		o.Res = SolverResult{Status: "sat", Solver: "syntactic", Out: "serialisation of key material outside the functions declared mayencode: " + hit}
 	}
 	return o
+}
+
+// unboxedValue: the value that was boxed into the interface operand (through MakeInterface / ChangeType / Convert).
+func unboxedValue(v ssa.Value) ssa.Value {
+	for i := 0; i < 8; i++ {
+		switch x := v.(type) {
+		case *ssa.MakeInterface:
+			v = x.X
+		case *ssa.ChangeType:
+			v = x.X
+		case *ssa.Convert:
+			v = x.X
+		default:
+			return v
+		}
+	}
+	return v
+}
+
+// secretFieldLoad: the operand is the value of a field declared `secretfield` (the text form of a secret kept in a TOML
+// mirror), read through a pointer (load of a field address) or out of a struct value.
+func (e *Engine) secretFieldLoad(v ssa.Value) string {
+	if len(e.cs.SecretFields) == 0 || v == nil {
+		return ""
+	}
+	name := func(t types.Type, idx int) string {
+		if p, ok := t.Underlying().(*types.Pointer); ok {
+			t = p.Elem()
+		}
+		st, ok := t.Underlying().(*types.Struct)
+		if !ok || idx >= st.NumFields() {
+			return ""
+		}
+		return types.TypeString(t, nil) + "." + st.Field(idx).Name()
+	}
+	n := ""
+	switch x := v.(type) {
+	case *ssa.UnOp:
+		if fa, ok := x.X.(*ssa.FieldAddr); ok {
+			n = name(fa.X.Type(), fa.Field)
+		}
+	case *ssa.Field:
+		n = name(x.X.Type(), x.Field)
+	}
+	for _, f := range e.cs.SecretFields {
+		if n == f {
+			return "field " + n
+		}
+	}
+	return ""
 }
